@@ -1164,7 +1164,119 @@ def gen_defs(rng, sig, n):
             sk = erase(orig, rng, *lvl)
             out.append({"kind": "defs:gen-" + flavour, "orig": orig, "skel": sk, "vars": {}, "svars": {}, "defs": {name: Dhead},
                         "forbid": True, "declared": False, "must_recover": False})
+    out += gen_defs_shadow(rng, sig, g, max(30, n // 4))
     return out
+
+
+def gen_defs_shadow(rng, sig, g, n):
+    """ctxt.defs names a constant that the theory ALREADY declares, at a type that is not an instance of the
+    declared one.  Only the head of the lhs is typed from defs; every other occurrence is the theory's constant.
+    (a) rhs uses the constant at an instance of its theory type: must be inferred; (b) rhs uses it at the defs
+    type: must be rejected."""
+    cands = [c for c in ("Suc", "length", "neg", "rev", "card", "even", "fact", "append", "cons", "member", "nth")
+             if c in sig]
+    out = []
+    tries = 0
+    while len(out) < n and tries < 40 * n:
+        tries += 1
+        c = rng.choice(cands)
+        S = sig[c]
+        nargs = rng.randint(1, 2)
+        args = []
+        while len(args) < nargs:
+            T = g.rtype(1)
+            if not has_tyvar(T):
+                args.append(T)
+        R = rng.choice([BOOL, NAT, ("c", "int", ())])
+        D = fun(*(args + [R]))
+        if TermGen.match(S, D, {}):
+            continue                        # wanted: NOT an instance of the theory's type
+        g.vars, g.svars, g.nv = {}, {}, 0
+        xs = [("var", "x%d" % i, T) for i, T in enumerate(args)]
+        for v in xs:
+            g.vars[v[1]] = v[2]
+        lhs = app(("const", c, D), *xs)
+        # an occurrence of c at an instance of its THEORY type, applied to all its arguments
+        m = g.fill(S, {})
+        pre, SR = g.strip[c][-1]
+        inner = app(("const", c, g.inst(S, m)), *[g.gen(g.inst(A, m), [], rng.randint(0, 1)) for A in pre])
+        SRT = g.inst(SR, m)
+        good = rng.random() < 0.6
+        if good:
+            # rhs :: R built around `inner`:  IF (inner = inner') then r1 else r2
+            test = app(("const", "equals", fun(SRT, SRT, BOOL)), inner, g.gen(SRT, [], 0))
+            if "IF" not in sig:
+                continue
+            rhs = app(("const", "IF", fun(BOOL, R, R, R)), test, g.gen(R, [], 1), g.gen(R, [], 0))
+            orig = app(("const", "equals", fun(R, R, BOOL)), lhs, rhs)
+            for lvl in ((1, 1, 1), (1, 0, 1)):
+                out.append({"kind": "defs:shadow-theory-type", "orig": orig, "skel": erase(orig, rng, *lvl), "vars": {}, "svars": {},
+                            "defs": {c: D}, "forbid": True, "declared": False, "must_recover": False})
+        else:
+            # rhs uses c at the defs type D (only legal for the head): ill-typed w.r.t. the theory
+            rhs = app(("const", c, None), *[g.gen(T, [], 0) for T in args])
+            sk = app(("const", "equals", fun(R, R, BOOL)), erase(lhs, rng, 1, 1, 1), erase(rhs, rng, 0, 0, 0))
+            out.append({"kind": "defs:shadow-defs-type", "skel": sk, "vars": dict(g.vars), "svars": dict(g.svars), "defs": {c: D}, "forbid": True})
+    return out
+
+
+# ====================================================================== one schematic variable, several occurrences
+def gen_svar_multi(rng, sig, n):
+    """undeclared, unannotated schematic variables with several occurrences that the surrounding constants do
+    NOT tie together (each occurrence sits in its own annotated equation), at one type (typable) or at two types
+    (must be rejected), together with an undeclared ordinary variable of the SAME name at yet another type
+    (x and ?x are different variables).  Constant types are kept, so the typing is fully determined."""
+    g = TermGen(rng, sig)
+    IMP = ("const", "implies", fun(BOOL, BOOL, BOOL))
+    eq = lambda a, b: app(C("equals"), a, b)
+    idb = ("abs", "x", BOOL, ("bound", 0))
+    sp, sx, x = ("svar", "p", None), ("svar", "x", None), V("x")
+    hand = [
+        ("two-types", app(IMP, sp, eq(sp, idb))),                       # ?p :: bool and ?p :: bool => bool: clash
+        ("same-name-var", app(IMP, sx, eq(x, idb))),                    # ?x :: bool, x :: bool => bool: fine
+        ("same-name-var-flip", app(IMP, eq(x, idb), sx)),
+        ("three-occurrences", app(IMP, sp, app(IMP, sp, eq(sp, C("true"))))),
+        ("two-types-far", conj([eq(sp, C("zero", NAT)), eq(V("u"), V("u2")), sp])),
+        ("two-svars-one-var", conj([eq(sx, C("zero", NAT)), eq(("svar", "y", None), sx), x, eq(V("y"), idb)])),
+    ]
+    out = [{"kind": "svar-multi:" + k, "skel": t, "vars": {}, "svars": {}, "forbid": True} for k, t in hand]
+
+    def atom(kind, name, T):
+        """a boolean term `(v :: T) = rhs` with annotated equals, v of the given kind and name"""
+        g.vars, g.svars, g.nv = {}, {}, 0
+        rhs = g.gen(T, [], rng.randint(0, 2))
+        natom[0] += 1                                        # atoms are generated separately: keep their variables apart
+        rhs = rename_all(rhs, {v: "%s_%d" % (v, natom[0]) for v in list(g.vars) + list(g.svars) + [name]})
+        return app(("const", "equals", fun(T, T, BOOL)), (kind, name, T), rhs)
+    natom = [0]
+    while len(out) < n:
+        T1, T2, T3 = g.rtype(1), g.rtype(1), g.rtype(1)
+        if T1 == T2 or has_tyvar(T1) or has_tyvar(T2) or has_tyvar(T3):
+            continue
+        mode = rng.choice(["same", "two-types", "with-var", "with-var-two-types"])
+        parts = [atom("svar", "s", T1), atom("svar", "s", T1 if mode in ("same", "with-var") else T2)]
+        if mode.startswith("with-var"):
+            parts.append(atom("var", "s", T3))
+        rng.shuffle(parts)
+        orig = conj(parts)
+        sk = erase(orig, rng, 1, rng.choice([0, 1]), 0)
+        case = {"kind": "svar-multi:gen-" + mode, "skel": sk, "vars": {}, "svars": {}, "forbid": True}
+        if mode in ("same", "with-var"):
+            case.update({"orig": orig, "declared": False, "must_recover": False})
+        out.append(case)
+    return out
+
+
+def rename_all(t, ren):
+    """rename free and schematic variables"""
+    k = t[0]
+    if k in ("var", "svar"):
+        return (k, ren.get(t[1], t[1]), t[2])
+    if k == "comb":
+        return ("comb", rename_all(t[1], ren), rename_all(t[2], ren))
+    if k == "abs":
+        return ("abs", t[1], t[2], rename_all(t[3], ren))
+    return t
 
 
 # ====================================================================== histories: several theories in one process
@@ -1578,6 +1690,12 @@ def compare_model(ctx, cases, results, out, label):
             m = ("error", "tie")                  # compared on the exception class only
         if kind in MODEL_TIE and res[0] == "error" and res[1].startswith("tie:") and res[1] != "tie:" + kind:
             ctx.count("message-kind-differs-from-model")      # informative only
+        if m == ("error", "fuel") and want != ("error", "fuel"):
+            # the model ran out of fuel although the implementation answered: never a silent pass
+            ctx.count("model-fuel-exhausted")
+            ctx.broken("correspondence:c08:fuel-exhausted:" + label, "model out of fuel (%d) on %s; implementation: %s" % (
+                FUEL, tm_str(case["skel"]), want if want[0] != "ok" else "ok"))
+            continue
         if m != want:
             ndis += 1
             ctx.coverage["disagreements_checked"] += 1
@@ -1627,9 +1745,9 @@ def run(ctx):
         "overloaded constant of the signature, T monomorphic / over rigid 'a / over ?'a, recursive calls, annotated heads, malformed shapes "
         "with the same name, in hand-made clashes and in well-typed terms where one declared variable has 'a and ?'a exchanged. "
         "Non-trivial = skeleton has at least 4 nodes; distinct by skeleton + context.")
-    proofs_ok = ctx.lean_props(["Holpy.C08.Props"], exes=[EXE])
+    proofs_ok = ctx.lean_props(["Holpy.C08.Props", "Holpy.C08.Props2"], exes=[EXE])
     if ctx.tier == "thorough" and proofs_ok:
-        ctx.lean_check_modules(["Holpy.C08.Props"])
+        ctx.lean_check_modules(["Holpy.C08.Props", "Holpy.C08.Props2"])
     ctx.coverage["trusted_base"] += [
         "harness/props/c08.py: generators, the reference unifier used as completeness oracle, the tuple <-> Term conversion",
         "kernel Term.checked_get_type as the judge of 'type-checks'",
@@ -1641,7 +1759,7 @@ def run(ctx):
         "which TypeInferenceException is raised (occurs / clash / not a function / under-determined / reserved) is read off the message "
         "text for the histogram only; verdicts and the comparison with the model use the exception class, and whether an error is "
         "justified is decided by the reference unifier (fully determined typing exists: error is a violation)",
-        "termination of unify is not proved (fuel); only the final substitution loop is proved to terminate",
+        "termination: proved (unify_fuel_suffices, final_loop_terminates, type_infer_total); principality of the traversal: not proved",
         "the model takes the signature as a parameter (Ctx.sig): that type_infer reads the signature of the theory current at the time "
         "of the call (no state kept between calls or theories) is checked by the history stream, not proved"]
     sig = load_sig(ctx)
@@ -1658,6 +1776,8 @@ def run(ctx):
     have_model &= check_cases(ctx, rn, sig, "reserved")
     df = gen_defs(ctx.rng("defs"), sig, ctx.scale(300, 6000))
     have_model &= check_cases(ctx, df, sig, "defs")
+    sm = gen_svar_multi(ctx.rng("svar-multi"), sig, ctx.scale(200, 4000))
+    have_model &= check_cases(ctx, sm, sig, "svar-multi")
     cyc = gen_cycles(ctx.rng("cycles"), ctx.tier == "thorough")
     have_model &= check_cases(ctx, cyc, sig, "cycles")
     er = gen_erasures(ctx.rng("erasures"), sig, ctx.scale(500, 15000), 4)
@@ -1707,15 +1827,23 @@ MANIFEST = {
             "declared type, gives the occurrences of a variable whose type is missing one type per name, constants at instances of their "
             "signature type or of the type ctxt.defs gives for the constant being defined, no internal type variable left; a given type using a "
             "reserved name ?'_t... is rejected with type_infer's own error), unify_sound "
-            "(uf solves every equation unified so far), erasure_recovery_partial (variable types dropped, variables declared: the original term "
-            "comes back), union_preserves_reach + infer_preserves_reach + final_loop_terminates (the final "
+            "(uf solves every equation unified so far), unify_fuel_suffices (unify never runs out of fuel >= (n+1)(S+1)+S+2: termination of "
+            "the recursive unify, by a chain/measure argument on the union-find + reach-set state), unify_complete + unify_most_general "
+            "(if some substitution solves uf and unifies A and B, unify succeeds and keeps it: the solved form has exactly the unifiers), "
+            "infer_state_good (every state the traversal reaches satisfies the invariants these need), type_infer_total (some fuel is "
+            "always enough: the whole of type_infer terminates), erasure_recovery (variable types dropped, variables declared, constant and "
+            "binder types kept: exactly the original term comes back), union_preserves_reach + infer_preserves_reach + final_loop_terminates (the final "
             "substitution loop terminates on every state the traversal can reach). Model tied to syntax/infertype.py by differential runs on "
             "generated skeletons; the real type_infer is judged on every generated skeleton by an oracle that needs no model "
             "(checked_get_type, shape, annotations, declared types, instances, no _tN, exact recovery of erased well-typed terms, and an "
             "independent textbook unifier deciding typable / under-determined / untypable).",
     "note": "Trusted: Lean kernel, propext/Classical.choice/Quot.sound, the generators and reference unifier in harness/props/c08.py, "
-            "kernel Term.checked_get_type. Partial: principality (recovers the original or reports under-determined) is checked by the "
-            "reference unifier on generated inputs, not proved; termination of unify is not proved (fuel) - only the final loop; "
+            "kernel Term.checked_get_type. NOT proved: principality of the whole traversal infer (that the returned term is the most general "
+            "completion of the skeleton / that an erasure is either recovered or under-determined): proved for the unification core only "
+            "(unify_complete, unify_most_general) and for the erasure level 'variable types only' (erasure_recovery); for the other levels "
+            "it is checked by the reference unifier on generated inputs. type_infer_total gives existence of enough fuel, not a closed "
+            "formula for the whole traversal (unify_fuel_suffices gives the formula per unify call); the harness runs the model with "
+            "fuel 100000 and reports a model fuel exhaustion as a broken correspondence. "
             "infer_printed_type is not modelled. Scope of 'gives all occurrences of a variable one type': the occurrences WITHOUT annotation "
             "(theorem: Respects.varFree / varDecl); an annotated occurrence (x::T) keeps T and, kernel variables being identified by name "
             "AND type, is a different variable from an x of another type - parse_term(\"(x::nat) = 0 & x\") returns x at nat and at bool; "
